@@ -14,7 +14,8 @@ Structure of the check
   by reading raw ``Fiber.coords / payloads``: the stored elements of every operand fiber of that
   loop (with a flag "presented", i.e. non-empty), the destination's stored coordinates before the
   loop, the coordinates of the executed bodies and, per body of a populate loop, whether the
-  referenced element ended non-default;
+  coordinate was still stored in the destination when control came back to the loop (observed,
+  not modelled: which elements populate keeps is C05's subject);
 * ``model_instance`` (pure Python, no library call) turns that record into the expected rows of
   every *role* (``iter``; each side of each two-finger merge incl. the head left under the finger;
   leader and followers; populate source; populate destination reads / writes; project source);
@@ -132,7 +133,7 @@ def trace_types():
 #   {"rank": loop rank, "level": L, "prefix": [coords of the enclosing bodies],
 #    "expr": expression (below), "fibers": {name: [[coord, presented], ...]},      # stored elements
 #    "z": None | {"coords": [...stored before the loop...], "compressed": bool},
-#    "bodies": [coord, ...], "outcomes": [["leaf", nonzero] | ["fiber", nonempty], ...]}
+#    "bodies": [coord, ...], "outcomes": [["obs", still stored after the body], ...]}
 #
 # expression::  ["fiber", name] | ["and", e, e] | ["lf", [name, ...]]
 #             | ["project", name, mul, off, interval | None, start_pos | None, source rank]
@@ -264,8 +265,10 @@ def m_lshift(inst, key, esrc):
         yield (c, n, n)
         if n >= len(outcomes):
             raise ModelMismatch(f"the populate loop should have run a body for coordinate {c} (body #{n})")
-        kind, flag = outcomes[n]
-        retained = flag if kind == "leaf" else (existed or flag)
+        # whether the element stayed is a matter of the populate semantics (C05), not of the traces:
+        # the executor OBSERVED it (coordinate still stored in the destination when control returned
+        # to the populate loop)
+        retained = outcomes[n][1]
         if retained:
             if not existed:
                 z.insert(bisect.bisect_left(z, c), c)
@@ -375,7 +378,12 @@ def _run_kernel(prep, log, on_outer_body):
                  "bodies": [], "outcomes": []}
         log.append(entry)
         it = (z << src) if z_has else src
+        pending = None
         for c, payload in it:
+            if pending is not None:
+                # control is back in the populate loop: is the previous body's element still stored?
+                entry["outcomes"].append(["obs", pending in z.coords])
+                pending = None
             if z_has:
                 z_n, payload = payload
             else:
@@ -393,10 +401,11 @@ def _run_kernel(prep, log, on_outer_body):
                 nd[i] += 1
             loop(level + 1, z_n, nxt, depth_z + (1 if z_has else 0), nd, prefix + [c])
             if z_has:
-                entry["outcomes"].append(["leaf", Payload.get(z_n) != 0] if z_leaf
-                                         else ["fiber", len(z_n.coords) > 0])
+                pending = c
             if level == 0 and on_outer_body is not None:
                 on_outer_body()
+        if pending is not None:
+            entry["outcomes"].append(["obs", pending in z.coords])
 
     loop(0, prep.out.getRoot(), [t.getRoot() for t in prep.operands], 0, [0] * nops, [])
 
@@ -560,7 +569,11 @@ class OpProgram:
         else:
             it = src
         log.append(entry)
+        pending = None
         for c, payload in it:
+            if pending is not None:
+                entry["outcomes"].append(["obs", pending in z.coords])
+                pending = None
             entry["bodies"].append(c)
             if self.has_z:
                 z_ref, _ = Payload.get(payload)
@@ -572,9 +585,11 @@ class OpProgram:
                     z_ref <<= v
                 elif act == "zero":
                     z_ref <<= 0
-                entry["outcomes"].append(["leaf", Payload.get(z_ref) != 0])
+                pending = c
             if on_body is not None:
                 on_body()
+        if pending is not None:
+            entry["outcomes"].append(["obs", pending in z.coords])
 
 
 # -- nests below a flattened rank (tuple coordinates) ---------------------------
